@@ -368,6 +368,7 @@ type FnCtx struct {
 	rangeIdx      map[ast.Node]types.Object
 	rangeLen      map[ast.Node]string
 	callOrds      map[*ast.CallExpr]int
+	siteOrds      map[*ast.CallExpr]int
 	nocontract    map[string]bool
 	externNoCon   map[string]bool
 	havocAllHeap  bool
